@@ -1305,6 +1305,8 @@ func (m *farmMon) probe(s *farmSnap) {
 // generator (also the reusable Workload)
 
 type farmGen struct {
+	topped       string // pool topped up before its start (scripted)
+	toppedStaked bool
 	plainLists bool
 	run         *ev.Run
 	r           *rig.Rig
@@ -2182,6 +2184,26 @@ func runFarm(run *ev.Run, c int, mode string) {
 			}
 			if p, ok := g.randPool(v.active); ok {
 				extra = append(extra, stakeSome(v, p, 3, func(i int) *big.Int { return g.regimeAmt(p.Description, false) })...)
+			}
+		case b == 2:
+			// the pool that has not started yet is topped up before its start ...
+			if p, ok := g.randPool(v.future); ok && p.Editable && len(p.Rules) > 0 {
+				if cr := g.acct(p.Creator); cr != nil {
+					var add sdk.Coins
+					for _, ru := range p.Rules {
+						add = add.Add(coin(ru.Reward, new(big.Int).Mul(bi(ru.RewardPerBlock), big.NewInt(int64(3+rng.Intn(5))))))
+					}
+					extra = append(extra, r.Mk(cr, &farmTag{Kind: "adjust", Note: "top-up-before-start"}, &farmtypes.MsgAdjustPool{PoolId: p.Id, AdditionalReward: add, Creator: p.Creator}))
+					g.topped = p.Id
+					run.Count("pool-topped-up-before-its-start", 1)
+				}
+			}
+		case g.topped != "" && !g.toppedStaked:
+			// ... and the anchor farmer stakes in it once it has started and stays until it ends
+			if p, ok := v.s.Pools[g.topped]; ok && p.StartHeight <= v.h {
+				g.toppedStaked = true
+				g.noTouch = map[string]bool{p.Id: true}
+				add(g.mkStake(v, p, g.anchor, big.NewInt(int64(1000+rng.Intn(100000))), ""))
 			}
 		case b == endgame: // short-lived pool that expires with stakers in it
 			g.nCreated = 0
